@@ -130,3 +130,83 @@ def spec_skip_frame(exp: 'func:PARSE', f: 'Frame') -> 'Frame':
     step does, so the definition is consistent; that the code's loop reaches the frame is the termination measure of the loop.)"""
     return (f if f.cursor.pos >= f.cursor.len or out_ok(exp, spec_fresh(f))
             else spec_skip_frame(exp, spec_skip_step(f)))
+
+
+def uf_body_options(body) -> 'seq[func:PARSE]':
+    """the option functions the block under `with ctx.choice() as ch:` registers with `@ch.option`, in order"""
+    raise NotImplementedError
+
+
+# ---- repetition (`repeat`): one iteration runs in the frame option() pushes; sub-expressions run isolated in their own frames
+def spec_iso(f, sub):
+    """the frame isolate() leaves when its body ended successfully in `sub` (position and names of sub, the rest of f)"""
+    return spec_with_ast(spec_goto(f, sub.cursor.pos), sub.ast)
+
+
+def spec_iter_nosep(exp, f):
+    """`{e}` one more time from frame f: the option frame after e matched (its value appended as one element)"""
+    return spec_appended(spec_iso(spec_fresh(f), out_frame(exp, spec_fresh(spec_fresh(f)))),
+                         spec_cstfinal(out_frame(exp, spec_fresh(spec_fresh(f))).cst))
+
+
+def spec_iter_nosep_ok(exp, f):
+    """the iteration matched AND consumed input (an iteration that matches no input ends the repetition)"""
+    return out_ok(exp, spec_fresh(spec_fresh(f))) and spec_iter_nosep(exp, f).cursor.pos != f.cursor.pos
+
+
+def spec_rep_nosep(exp: 'func:PARSE', f: 'Frame') -> 'Frame':
+    """the frame after `{e}` repeated from f as often as it matches with progress (tail recursion: consistent whatever e does)"""
+    return (spec_rep_nosep(exp, spec_merged(f, spec_iter_nosep(exp, f))) if spec_iter_nosep_ok(exp, f) else f)
+
+
+def spec_rep_nosep_fails(exp, f):
+    """the repetition is committed to fail: at the frame where it ends, e failed after a cut of its own"""
+    return (not out_ok(exp, spec_fresh(spec_fresh(spec_rep_nosep(exp, f))))
+            and out_cut(exp, spec_fresh(spec_fresh(spec_rep_nosep(exp, f)))))
+
+
+def spec_iter_sep(exp, prefix, omitsep, f):
+    """`sep%{e}` one more time from frame f: the option frame after `sep e` matched -- the separator's value is one element
+    (unless it is omitted: gather), then the cut (a join commits after each separator), then e's value as one element"""
+    g0 = spec_fresh(f)
+    fp = out_frame(prefix, spec_fresh(g0))
+    g1 = spec_iso(g0, fp)
+    g1c = spec_with_cut(g1 if omitsep else spec_appended(g1, spec_cstfinal(fp.cst)))
+    fe = out_frame(exp, spec_fresh(g1c))
+    return spec_appended(spec_iso(g1c, fe), spec_cstfinal(fe.cst))
+
+
+def spec_iter_sep_ok(exp, prefix, omitsep, f):
+    g0 = spec_fresh(f)
+    fp = out_frame(prefix, spec_fresh(g0))
+    g1 = spec_iso(g0, fp)
+    g1c = spec_with_cut(g1 if omitsep else spec_appended(g1, spec_cstfinal(fp.cst)))
+    return (out_ok(prefix, spec_fresh(g0)) and out_ok(exp, spec_fresh(g1c))
+            and spec_iter_sep(exp, prefix, omitsep, f).cursor.pos != f.cursor.pos)
+
+
+def spec_rep_sep(exp: 'func:PARSE', prefix: 'func:PARSE', omitsep: 'bool', f: 'Frame') -> 'Frame':
+    return (spec_rep_sep(exp, prefix, omitsep, spec_merged(f, spec_iter_sep(exp, prefix, omitsep, f)))
+            if spec_iter_sep_ok(exp, prefix, omitsep, f) else f)
+
+
+def spec_rep_sep_fails(exp, prefix, omitsep, f):
+    """the repetition is committed to fail: at the frame where it ends the separator matched (everything after it is behind
+    the cut) or failed after a cut of its own"""
+    return (out_ok(prefix, spec_fresh(spec_fresh(spec_rep_sep(exp, prefix, omitsep, f))))
+            or out_cut(prefix, spec_fresh(spec_fresh(spec_rep_sep(exp, prefix, omitsep, f)))))
+
+
+def spec_with_cst(f, cst):
+    return Frame(cursor=f.cursor, ast=f.ast, cst=cst, cutseen=f.cutseen, last_node=f.last_node, alerts=f.alerts)
+
+
+def spec_rep_start(fe):
+    """the frame a repetition continues from after its first element ended in frame fe: the element's value is the first
+    (and only) item of a new list"""
+    return spec_with_cst(fe, [fe.cst])
+
+
+def spec_closed(f):
+    """the repetition's own frame with its list closed (the value of a closure is a closed list)"""
+    return spec_with_cst(f, closedlist(f.cst))
